@@ -148,7 +148,7 @@ def classify(diags, meta):
                 fatal.append(d)
                 continue
             if pm.get('part') == 'await':
-                rec.update(fn=pm['fn'], kind='await', clause=pm.get('clause'), tags=['C13'])
+                rec.update(fn=pm['fn'], kind='await', clause=pm.get('clause'), tags=pm.get('tags', ['C13']))
             elif pm.get('part') == 'hint':
                 rec.update(fn=pm['fn'], kind='hint', clause='hint.%s' % pm.get('clause'), tags=None)
             elif pm.get('part') == 'twin':
